@@ -454,6 +454,21 @@ func systematicPkgCases(id *int, profile, scratch string, rng *rand.Rand, tier s
 				{Type: "file", Src: "src/app.conf", Dst: "/usr/share/samesrcpkg/d.conf"}}
 			add(c, smallTree(), "same-source")
 		}
+		// a typed single-file entry and a tree that covers the same source at the same destination: two entries for one
+		// destination - the list is rejected (in both orders), the declared type is not silently lost
+		for _, ty := range []string{"config", "config|noreplace", "doc"} {
+			for _, treeFirst := range []bool{false, true} {
+				c := baseCfg("overlaypkg")
+				one := Entry{Type: ty, Src: "src/sub/data.txt", Dst: "/usr/share/overlaypkg/tree/data.txt"}
+				tree := Entry{Type: "tree", Src: "src/sub", Dst: "/usr/share/overlaypkg/tree"}
+				if treeFirst {
+					c.Entries = []Entry{plain, tree, one}
+				} else {
+					c.Entries = []Entry{plain, one, tree}
+				}
+				add(c, smallTree(), "tree-overlay")
+			}
+		}
 		// entries beneath a symbolic link / a regular file: the list is rejected for every format (nothing is shipped below
 		// something that is not a directory)
 		for _, first := range []Entry{{Type: "symlink", Src: "/opt/demo/releases/1", Dst: "/opt/demo/current"}, {Type: "file", Src: "src/bin", Dst: "/opt/demo/current"}} {
